@@ -349,6 +349,57 @@ func runUFCase(raw json.RawMessage, w *TraceWriter) {
 		if out := write(fs); out != nil {
 			conv(out, api)
 		}
+	case "badtree":
+		// a well-typed tree with ONE node whose type tag is not a Thrift type, at a random position (top level, list /
+		// set element, map key or value, struct field, any depth): both the length function and the writer refuse it
+		ctr := int(c.Seed % 200)
+		fs := genUFTree(rng, c.N, c.Depth, &ctr)
+		goodLen, _ := uf.UnknownFieldsLength(fs)
+		var nodes []*uf.UnknownField
+		var walk func(fs []uf.UnknownField)
+		walk = func(fs []uf.UnknownField) {
+			for i := range fs {
+				nodes = append(nodes, &fs[i])
+				if sub, ok := fs[i].Value.([]uf.UnknownField); ok {
+					walk(sub)
+				}
+			}
+		}
+		walk(fs)
+		victim := nodes[rng.Intn(len(nodes))]
+		depthOf := 0
+		victim.Type = thrift.TType([]int8{0, 1, 5, 7, 9, 16, 17, 99, -1, -128}[rng.Intn(10)])
+		lenok, writeok, panicked := false, false, false
+		func() {
+			defer func() {
+				if p := recover(); p != nil {
+					panicked = true
+				}
+			}()
+			_, lerr := uf.UnknownFieldsLength(fs)
+			lenok = lerr == nil
+			_, werr := uf.WriteUnknownFields(make([]byte, goodLen+64), fs)
+			writeok = werr == nil
+		}()
+		w.Ev("uf_bad", "api", "badtree", "nodes", len(nodes), "depth", depthOf, "badtype", int(victim.Type), "lenok", lenok, "writeok", writeok, "panic", panicked)
+	case "badget":
+		// GetUnknownFields on things that hold no unknown fields: an error, never a panic
+		for _, v := range []struct {
+			name string
+			v    interface{}
+		}{{"int", 7}, {"nilptr", (*withUnknown)(nil)}, {"nofield", &struct{ A int }{1}}, {"string", "s"}, {"nil", nil}} {
+			ok, panicked := false, false
+			func() {
+				defer func() {
+					if p := recover(); p != nil {
+						panicked = true
+					}
+				}()
+				_, err := uf.GetUnknownFields(v.v)
+				ok = err == nil
+			}()
+			w.Ev("uf_bad", "api", "badget-"+v.name, "nodes", 0, "depth", 0, "badtype", 0, "lenok", ok, "writeok", ok, "panic", panicked)
+		}
 	}
 }
 
@@ -388,11 +439,17 @@ func ufCases(c *Ctx, n int, hostile bool) []json.RawMessage {
 		}
 		out = append(out, mustJSON(u))
 	}
+	if !hostile {
+		for i := 0; i < n/10+5; i++ {
+			out = append(out, mustJSON(UFCase{Mode: "badtree", Seed: rng.Int63(), N: 1 + rng.Intn(3), Depth: 1 + rng.Intn(4)}))
+		}
+		out = append(out, mustJSON(UFCase{Mode: "badget"}))
+	}
 	return out
 }
 
 func checkC13(c *Ctx) {
-	c.rule = "MC: over all well-typed trees within bounds (every type at the top level and as element/key/value type of the first container level, reduced alphabet below, 0..2 elements, two fields after one another inside a struct) ToTree(ToBytes(t)) = t, ToBytes(ToTree(b)) = b, TreeLen = length, tags only where meaningful. TRACE: random field sequences from the typed value generator -> ConvertUnknownFields / GetUnknownFields -> WriteUnknownFields / UnknownFieldsLength, and random Go trees -> write -> convert; TLC compares every tree field by field (ID, Type, KeyType, ValType, Value) with ToTree and every output with ToBytes."
+	c.rule = "MC: over all well-typed trees within bounds (every type at the top level and as element/key/value type of the first container level, reduced alphabet below, 0..2 elements, two fields after one another inside a struct) ToTree(ToBytes(t)) = t, ToBytes(ToTree(b)) = b, TreeLen = length, tags only where meaningful. TRACE: random field sequences from the typed value generator -> ConvertUnknownFields / GetUnknownFields -> WriteUnknownFields / UnknownFieldsLength, and random Go trees -> write -> convert; TLC compares every tree field by field (ID, Type, KeyType, ValType, Value) with ToTree and every output with ToBytes; trees with one node of a non-Thrift type at any position are refused by the length function and the writer, values without unknown fields by GetUnknownFields (an error, never a panic)."
 	c.MC("MC_UnknownFields.tla", "MC_UnknownFields.cfg", 4)
 	c.TraceCheck(famUFC13, ufCases(c, c.Pick(1500, 30000), false))
 	c.Assume("doubles are compared by bit pattern (lanes); element ids are positional as the code assigns them")
